@@ -425,3 +425,269 @@ Proof.
   - split; [apply loop_waits_le_calls | apply loop_calls_le_script].
   - intros Hr. destruct (loop_exhausted ms calc ca rate script 0%nat 0 Hr) as [H1 [H2 _]]. auto.
 Qed.
+
+(* ------------------------------------------------------------------------------------------------------------ *)
+(* instantiation: the real delay function (run) and the recorded one of the checker (run_seam)                   *)
+(* ------------------------------------------------------------------------------------------------------------ *)
+
+Theorem outcome_run ms drate rnd ca rate script :
+  0 <= ms <= 31 ->
+  outcome_spec (run faithful ms drate rnd ca rate script) ca script.
+Proof. intros Hms. unfold run. apply outcome_any_seam. apply calc_real_total. exact Hms. Qed.
+
+Theorem outcome_run_seam ca ds rate script : outcome_spec (run_seam ca ds rate script) ca script.
+Proof. unfold run_seam. apply outcome_any_seam. apply calc_list_total. Qed.
+
+Theorem fatal_fully_unwrapped (depth : nat) (id : Z) :
+  (1 <= depth)%nat ->
+  is_fatal (wrap depth (EBase id)) = true /\
+  unpack (wrap depth (EBase id)) = EBase id /\
+  is_fatal (unpack (wrap depth (EBase id))) = false.
+Proof.
+  intros Hd. destruct depth as [| d]; [lia |].
+  split; [reflexivity |]. rewrite unpack_wrap_base. split; reflexivity.
+Qed.
+
+(* ---- default rate ---- *)
+Theorem default_rate_used fl ms drate rnd ca rate script :
+  rate <= 0 ->
+  eff_rate drate rate = drate /\
+  run fl ms drate rnd ca rate script = run fl ms drate rnd ca drate script.
+Proof.
+  intros Hr. unfold run, eff_rate.
+  destruct (Z.leb_spec rate 0); [| lia]. destruct (drate <=? 0); split; reflexivity.
+Qed.
+
+Theorem given_rate_used drate rate : 0 < rate -> eff_rate drate rate = rate.
+Proof. intros Hr. unfold eff_rate. destruct (Z.leb_spec rate 0); [lia | reflexivity]. Qed.
+
+(* ---- delays ---- *)
+Definition delay_spec (R : result) (ms r : Z) (rnd : nat -> Z -> Z) : Prop :=
+  forall i w, nth_error (waits R) i = Some w ->
+    let k := Z.of_nat (S i) in             (* this is the delay before the k-th retry *)
+    let slots := 2 ^ Z.min k ms in
+    w_rate w = r /\ w_c w = Z.min k ms /\
+    exists j, j = rnd i slots /\ 0 <= j <= slots - 1 /\
+              w_d w = i64 (j * r) /\
+              ((slots - 1) * r < 2 ^ 63 -> w_d w = j * r).
+
+Theorem delay_range ms drate rnd ca rate script :
+  0 <= ms <= 31 -> 0 < drate -> oracle_ok rnd ->
+  0 < eff_rate drate rate /\
+  delay_spec (run faithful ms drate rnd ca rate script) ms (eff_rate drate rate) rnd.
+Proof.
+  intros Hms Hdr Hor.
+  assert (Hpos : 0 < eff_rate drate rate) by (unfold eff_rate; destruct (Z.leb_spec rate 0); lia).
+  split; [exact Hpos |].
+  intros i w Hn k slots. unfold run in Hn.
+  destruct (loop_waits_nth ms (calc_real ms rnd) ca (eff_rate drate rate) script 0%nat 0 i w Hms ltac:(lia) Hn)
+    as [H1 [H2 [H3 _]]].
+  cbn [Nat.add] in H2, H3. fold k in H2.
+  split; [exact H1 |]. split; [exact H2 |].
+  destruct (calc_real_spec ms rnd i (eff_rate drate rate) (w_c w) Hms ltac:(lia) Hor) as [j [Hj [Hjr [Hc1 Hc2]]]].
+  assert (Hs : 2 ^ Z.min (w_c w) ms = slots) by (unfold slots; f_equal; lia).
+  rewrite Hs in *.
+  exists j. split; [exact Hj |]. split; [exact Hjr |]. split.
+  - rewrite Hc1 in H3. injection H3 as H3. auto.
+  - intros Hfit. rewrite (Hc2 Hpos Hfit) in H3. injection H3 as H3. auto.
+Qed.
+
+(* ---- waits ---- *)
+Lemma wait_returns_spec d ctx_done timer_fired :
+  wait_returns d ctx_done timer_fired = true <-> (d <= 0 \/ ctx_done = true \/ timer_fired = true).
+Proof.
+  unfold wait_returns. split.
+  - intros Hr. destruct (Z.leb_spec d 0) as [Hd | Hd]; [left; exact Hd |].
+    destruct ctx_done; [right; left; reflexivity |]. destruct timer_fired; [right; right; reflexivity | discriminate Hr].
+  - intros [Hd | [Hc | Hf]].
+    + destruct (Z.leb_spec d 0); [reflexivity | lia].
+    + rewrite Hc. destruct (d <=? 0); reflexivity.
+    + rewrite Hf. destruct (d <=? 0); destruct ctx_done; reflexivity.
+Qed.
+
+Lemma wait_how_sound d ctx_done :
+  match wait_how_of d ctx_done with
+  | WNone => d <= 0 /\ wait_returns d false false = true
+  | WCut => 0 < d /\ ctx_done = true /\ wait_returns d true false = true
+  | WTimer => 0 < d /\ ctx_done = false /\ wait_returns d false false = false /\ wait_returns d false true = true
+  end.
+Proof.
+  unfold wait_how_of, wait_returns. destruct (Z.leb_spec d 0); [cbn; auto |].
+  destruct ctx_done; cbn; auto.
+Qed.
+
+Definition wait_spec (R : result) (ca : option nat) : Prop :=
+  forall i w, nth_error (waits R) i = Some w ->
+    (w_d w <= 0 -> w_how w = WNone) /\
+    (0 < w_d w -> before_cancel ca (2 * i + 2) -> w_how w = WTimer) /\
+    (forall t, ca = Some t -> (t <= 2 * i + 2)%nat ->
+       (0 < w_d w -> w_how w = WCut) /\ w_how w <> WTimer /\
+       w_done w = Nat.leb t (2 * i + 1) /\
+       calls R = S i /\ length (waits R) = S i /\ res R = None /\ ret R = RCtx).
+
+Theorem wait_cut_any_seam ms calc ca rate script :
+  0 <= ms <= 31 ->
+  wait_spec (loop faithful ms calc ca rate script 0 0) ca.
+Proof.
+  intros Hms i w Hn.
+  destruct (loop_waits_nth ms calc ca rate script 0%nat 0 i w Hms ltac:(lia) Hn) as [_ [_ [_ [H4 H5]]]].
+  cbn [Nat.add] in H4, H5.
+  split; [| split].
+  - intros Hd. rewrite H5. unfold wait_how_of. destruct (Z.leb_spec (w_d w) 0); [reflexivity | lia].
+  - intros Hd Hbc. apply before_cancel_spec in Hbc. rewrite H5, Hbc. unfold wait_how_of.
+    destruct (Z.leb_spec (w_d w) 0); [lia | reflexivity].
+  - intros t Hca Ht.
+    assert (Hcb : cancelled_by ca (2 * i + 2) = true).
+    { rewrite Hca, cancelled_by_some. apply Nat.leb_le. exact Ht. }
+    assert (Hhow : w_how w = if w_d w <=? 0 then WNone else WCut) by (rewrite H5, Hcb; reflexivity).
+    split; [| split; [| split]].
+    + intros Hd. rewrite Hhow. destruct (Z.leb_spec (w_d w) 0); [lia | reflexivity].
+    + rewrite Hhow. destruct (w_d w <=? 0); discriminate.
+    + rewrite H4, Hca, cancelled_by_some. reflexivity.
+    + destruct (loop_after_cancelled_wait ms calc ca rate script 0%nat 0 i w Hn Hcb) as [G1 [G2 [G3 G4]]]. auto.
+Qed.
+
+Theorem wait_cut_run ms drate rnd ca rate script :
+  0 <= ms <= 31 ->
+  wait_spec (run faithful ms drate rnd ca rate script) ca.
+Proof. intros Hms. unfold run. apply wait_cut_any_seam. exact Hms. Qed.
+
+(* ------------------------------------------------------------------------------------------------------------ *)
+(* refutations: realistic defects, selected by the flags of the SAME loop function                               *)
+(* ------------------------------------------------------------------------------------------------------------ *)
+
+Definition rnd_max : nat -> Z -> Z := fun _ n => n - 1.      (* always the last slot *)
+Lemma rnd_max_ok : oracle_ok rnd_max.
+Proof. intros i n Hn. unfold rnd_max. lia. Qed.
+Definition rnd_zero : nat -> Z -> Z := fun _ _ => 0.
+Lemma rnd_zero_ok : oracle_ok rnd_zero.
+Proof. intros i n Hn. unfold rnd_zero. lia. Qed.
+
+(* counter incremented at the end of the loop body: the first delay is computed with c = 0, one slot only *)
+Theorem counter_late_refuted :
+  exists rnd script, oracle_ok rnd /\
+    ~ delay_spec (run (mkF true false false false) max_shift_go default_rate_go rnd None 1000 script)
+                 max_shift_go 1000 rnd.
+Proof.
+  exists rnd_max, [OPlain 7; OSuccess (Some 1)]. split; [exact rnd_max_ok |].
+  intros H. specialize (H 0%nat (mkW 1000 0 0 false WNone) eq_refl).
+  destruct H as [_ [Hc _]]. vm_compute in Hc. discriminate Hc.
+Qed.
+
+(* one level of unwrapping only: a doubly wrapped error is returned still wrapped *)
+Theorem unwrap_one_refuted :
+  exists ca script,
+    ~ outcome_spec (run (mkF false true false false) max_shift_go default_rate_go rnd_zero ca 1000 script) ca script.
+Proof.
+  exists None, [OFatal 2 (Some 5) 9].
+  intros [_ [_ [_ [H _]]]]. vm_compute in H. discriminate H.
+Qed.
+
+(* fatal test on the unwrapped error: never fatal, the loop goes on after a fatal error *)
+Theorem fatal_inner_refuted :
+  exists ca script,
+    ~ outcome_spec (run (mkF false false true false) max_shift_go default_rate_go rnd_zero ca 1000 script) ca script.
+Proof.
+  exists None, [OFatal 1 (Some 5) 9; OSuccess (Some 6)].
+  intros [_ [H _]].
+  specialize (H [] (OFatal 1 (Some 5) 9) [OSuccess (Some 6)] (EFatal (EBase 9)) eq_refl (Forall_nil _) eq_refl eq_refl I).
+  destruct H as [H _]. vm_compute in H. discriminate H.
+Qed.
+
+(* no ctx.Err() check before an attempt: a call starts although the context was cancelled before *)
+Theorem no_ctx_check_refuted :
+  exists ca script,
+    ~ outcome_spec (run (mkF false false false true) max_shift_go default_rate_go rnd_zero ca 1000 script) ca script.
+Proof.
+  exists (Some 0%nat), [OSuccess (Some 6)].
+  intros [_ [_ [H _]]].
+  specialize (H 0%nat 0%nat eq_refl ltac:(lia) ltac:(lia)). destruct H as [H _].
+  vm_compute in H. lia.
+Qed.
+
+(* the side condition max_shift <= 31 is needed: with a cap of 32 the uint32 shift wraps to 0 and Int63n panics *)
+Theorem cap_above_31_refuted :
+  exists script,
+    ret (run faithful 32 default_rate_go rnd_zero None 1 script) = RPanic /\
+    ~ outcome_spec (run faithful 32 default_rate_go rnd_zero None 1 script) None script.
+Proof.
+  exists (repeat (OPlain 1) 33).
+  assert (H : ret (run faithful 32 default_rate_go rnd_zero None 1 (repeat (OPlain 1) 33)) = RPanic)
+    by (vm_compute; reflexivity).
+  split; [exact H |]. intros [_ [_ [_ [G _]]]]. rewrite H in G. exact G.
+Qed.
+
+(* ------------------------------------------------------------------------------------------------------------ *)
+(* examples: the hypotheses are satisfiable and the interesting cases occur                                      *)
+(* ------------------------------------------------------------------------------------------------------------ *)
+
+(* 40 plain failures then a success, never cancelled: 41 calls, the success's result; the counter passed to the
+   delay function is 1,2,...,31,31,...,31 (the cap is crossed) and with the last-slot oracle the k-th delay is
+   (2^min(k,31) - 1) * rate *)
+Example retry_crosses_cap :
+  let R := run faithful max_shift_go default_rate_go rnd_max None 2 (repeat (OPlain 3) 40 ++ [OSuccess (Some 77)]) in
+  calls R = 41%nat /\ res R = Some 77 /\ ret R = RNil /\
+  map w_c (waits R) = map Z.of_nat (seq 1 31) ++ repeat 31 9 /\
+  nth_error (map w_d (waits R)) 0 = Some 2 /\
+  nth_error (map w_d (waits R)) 30 = Some ((2 ^ 31 - 1) * 2) /\
+  nth_error (map w_d (waits R)) 39 = Some ((2 ^ 31 - 1) * 2) /\
+  Forall (fun w => w_how w = WTimer) (waits R).
+Proof. vm_compute. repeat split; try reflexivity. repeat constructor. Qed.
+
+(* a triply wrapped fatal error with a result at the third call *)
+Example retry_fatal_nested :
+  let R := run faithful max_shift_go default_rate_go rnd_zero None 0 [OPlain 1; OPlain 2; OFatal 3 (Some 8) 9; OSuccess None] in
+  calls R = 3%nat /\ res R = Some 8 /\ ret R = RErr (EBase 9) /\ map w_rate (waits R) = [default_rate_go; default_rate_go].
+Proof. vm_compute. repeat split; reflexivity. Qed.
+
+(* cancelled during the wait after call 2 (event 4): two calls, context error, the second wait is cut *)
+Example retry_cancel_in_wait :
+  let R := run faithful max_shift_go default_rate_go rnd_max (Some 4%nat) 5 (repeat (OPlain 1) 6) in
+  calls R = 2%nat /\ res R = None /\ ret R = RCtx /\ map w_how (waits R) = [WTimer; WCut] /\ map w_done (waits R) = [false; false].
+Proof. vm_compute. repeat split; reflexivity. Qed.
+
+(* cancelled during call 2 (event 3), which fails plainly: the wait is entered with a done context and cut *)
+Example retry_cancel_in_call :
+  let R := run faithful max_shift_go default_rate_go rnd_max (Some 3%nat) 5 (repeat (OPlain 1) 6) in
+  calls R = 2%nat /\ ret R = RCtx /\ map w_how (waits R) = [WTimer; WCut] /\ map w_done (waits R) = [false; true].
+Proof. vm_compute. repeat split; reflexivity. Qed.
+
+(* cancelled during call 2, which succeeds: the in-flight call ends the loop *)
+Example retry_cancel_in_successful_call :
+  let R := run faithful max_shift_go default_rate_go rnd_max (Some 3%nat) 5 [OPlain 1; OSuccess (Some 4); OPlain 2] in
+  calls R = 2%nat /\ res R = Some 4 /\ ret R = RNil.
+Proof. vm_compute. repeat split; reflexivity. Qed.
+
+(* cancelled before the first check: no call at all *)
+Example retry_cancel_before :
+  let R := run faithful max_shift_go default_rate_go rnd_max (Some 0%nat) 5 [OSuccess (Some 4)] in
+  calls R = 0%nat /\ res R = None /\ ret R = RCtx.
+Proof. vm_compute. repeat split; reflexivity. Qed.
+
+(* the no-overflow side condition of the delay clause is satisfiable for the default rate at the cap, and is needed:
+   a rate of 2^33 ns at the cap wraps the int64 product to a negative Duration *)
+Example fits_default_rate : (2 ^ Z.min 40 max_shift_go - 1) * default_rate_go < 2 ^ 63.
+Proof. vm_compute. reflexivity. Qed.
+Example overflow_wraps : calc_real max_shift_go rnd_max 0 (2 ^ 33) 31 = Some (- 2 ^ 33).
+Proof. vm_compute. reflexivity. Qed.
+
+Example slot_ok_examples :
+  slot_ok 1000 1 1000 = true /\ slot_ok 1000 1 2000 = false /\ slot_ok 1000 0 0 = true /\
+  slot_ok 7 40 ((2 ^ 31 - 1) * 7) = true /\ slot_ok 7 40 (2 ^ 31 * 7) = false /\ slot_ok 7 3 15 = false.
+Proof. vm_compute. repeat split; reflexivity. Qed.
+
+Example calc_exact_example : calc_exact 1000 3 29 = Some 5000 /\ calc_exact 1000 40 (2 ^ 31 + 5) = Some 5000.
+Proof. vm_compute. split; reflexivity. Qed.
+
+Theorem counter_and_shift_do_not_wrap (ms : Z) :
+  0 <= ms <= 31 ->
+  (forall k : nat, bump ms (Z.min (Z.of_nat k) ms) = Z.min (Z.of_nat (S k)) ms) /\
+  (forall c, 0 <= c -> calc_n ms c = 2 ^ Z.min c ms /\ 0 < calc_n ms c).
+Proof.
+  intros Hms. split; [intros k; exact (bump_min ms k Hms) | intros c Hc; exact (calc_n_pow ms c Hms Hc)].
+Qed.
+
+Theorem constants_satisfy_side_conditions :
+  max_shift_go = 31 /\ default_rate_go = 300 * 1000000 /\ 0 <= max_shift_go <= 31 /\ 0 < default_rate_go /\
+  (2 ^ Z.min 40 max_shift_go - 1) * default_rate_go < 2 ^ 63.
+Proof. vm_compute. repeat split; reflexivity || discriminate. Qed.
